@@ -21,7 +21,8 @@ PER_KEY = 3
 
 def _fail(res, key, what, inp=None, observed=None):
     if sum(1 for f in res.failures if f["key"] == key) < PER_KEY:
-        res.fail(key, what, inp, observed)
+        # the key travels with the input so that replay() judges exactly this failure and not another one on the same input
+        res.fail(key, what, dict(inp, failed_key=key) if isinstance(inp, dict) else inp, observed)
 
 
 # ------------------------------------------------------------------------------ custom predicates (module level: named)
@@ -565,8 +566,13 @@ def replay(check, inp):
         run_from_config(res, inp["from_config"], count=False)
     else:
         run_steps(res, inp["recipe"], inp["steps"], count=False)
-    for f in res.failures:
+    want = inp.get("failed_key") if isinstance(inp, dict) else None
+    mine = [f for f in res.failures if want is None or f["key"] == want]
+    for f in mine:
         print("  still failing:", f["key"], f["what"])
+    for f in res.failures:
+        if f not in mine:
+            print("  (another check fails on this input:", f["key"] + ")")
     for e in res.errors:
         print("  replay error:", e)
-    return not res.failures and not res.errors
+    return not mine and not res.errors
